@@ -88,6 +88,36 @@ PROPS = {
         "trusted_base": TB_COMMON,
         "assumptions": ["the scope predicates are modelled over a parsed view (EKU OIDs, policy OIDs, rfc822 names, otherNames)"],
     },
+    "C05": {
+        "proofs": ["ZlProofs.Props.C05"],
+        "corr": [],
+        "search": ["c05"],
+        "trusted_base": TB_COMMON + ["the SSA footprint analysis of extract/funcs.go (stores through object-rooted addresses incl. append aliasing and re-slices, stores to package-level variables, calls leaving the module, map-range sites)",
+                                     "the hand-written allow-lists in ZlProofs/Props/C05.lean (pure packages, function-level rules, documented clock/file sites, reviewed map ranges and appends) are part of the specification"],
+        "assumptions": ["A-LIB: third-party and standard-library functions called by lints are deterministic and effect-free", "A-MEMO: zcrypto's GetParsedDNSNames / GetParsedSubjectCommonName caches are pure memoisation",
+                        "wall-clock day held fixed (two AIA lints read time.Now)"],
+        "partial": "that the SSA footprint over-approximates the Go code's effects (reflection, unsafe, library internals) is trusted and cross-checked dynamically, not proved",
+    },
+    "C09": {
+        "proofs": ["ZlProofs.Props.C09"],
+        "corr": [],
+        "search": ["c09"],
+        "trusted_base": TB_COMMON,
+        "assumptions": ["A-SELF: the parser sets SelfSigned only when issuer bytes = subject bytes (checked on every object)",
+                        "A-ASN1: encoding/asn1 ignores bit-string contents when e_cert_ext_invalid_der re-parses the certificate",
+                        "A-PARSE: replacing the signature bits changes no parsed field other than Signature, Raw and the whole-certificate fingerprints"],
+        "partial": "the two Raw-reading lints are reviewed and exercised by the signature-replacement search; their blindness to the signature bits is not proved",
+    },
+    "C10": {
+        "proofs": ["ZlProofs.Props.C10"],
+        "corr": [],
+        "search": ["conc"],
+        "race_subs": ["conc"],
+        "trusted_base": TB_COMMON + ["Go's race detector (search only)"],
+        "assumptions": ["SetConfiguration and Register* are not among the concurrent operations (as the property states)",
+                        "each goroutine lints objects it owns"],
+        "partial": "data races are a property of the Go memory model and of third-party code; the Lean model shows only that zlint's own steps perform no shared writes per the extracted footprints; the real scheduler is observed under -race, not proved",
+    },
     "C06": {
         "proofs": ["ZlProofs.Props.C06"],
         "corr": [],
@@ -173,6 +203,36 @@ CLAIMS = {
     "C04": {"technique": "Lean 4 proof (call-log model of Execute) + scope-view correspondence + direct-call oracle",
             "text": "scope_gate, inapplicable_NA, execute_only_after_applies, verdict_stands, body_panic_fatal, config_error_fatal hold for every lint, object and configuration; the three scope predicates are modelled over a parsed view and compared with util.IsServerAuthCert / IsEmailProtectionCert / IsCodeSigning through the framework on a grid of EKU / policy / SAN shapes, including re-linting the same object pointer after in-place edits; every real lint is compared with a direct CheckApplies/Execute call on a fresh configured instance.",
             "note": "Trusted: harness; the view abstraction of a certificate."},
+    "C05": {
+        "proofs": ["ZlProofs.Props.C05"],
+        "corr": [],
+        "search": ["c05"],
+        "trusted_base": TB_COMMON + ["the SSA footprint analysis of extract/funcs.go (stores through object-rooted addresses incl. append aliasing and re-slices, stores to package-level variables, calls leaving the module, map-range sites)",
+                                     "the hand-written allow-lists in ZlProofs/Props/C05.lean (pure packages, function-level rules, documented clock/file sites, reviewed map ranges and appends) are part of the specification"],
+        "assumptions": ["A-LIB: third-party and standard-library functions called by lints are deterministic and effect-free", "A-MEMO: zcrypto's GetParsedDNSNames / GetParsedSubjectCommonName caches are pure memoisation",
+                        "wall-clock day held fixed (two AIA lints read time.Now)"],
+        "partial": "that the SSA footprint over-approximates the Go code's effects (reflection, unsafe, library internals) is trusted and cross-checked dynamically, not proved",
+    },
+    "C09": {
+        "proofs": ["ZlProofs.Props.C09"],
+        "corr": [],
+        "search": ["c09"],
+        "trusted_base": TB_COMMON,
+        "assumptions": ["A-SELF: the parser sets SelfSigned only when issuer bytes = subject bytes (checked on every object)",
+                        "A-ASN1: encoding/asn1 ignores bit-string contents when e_cert_ext_invalid_der re-parses the certificate",
+                        "A-PARSE: replacing the signature bits changes no parsed field other than Signature, Raw and the whole-certificate fingerprints"],
+        "partial": "the two Raw-reading lints are reviewed and exercised by the signature-replacement search; their blindness to the signature bits is not proved",
+    },
+    "C10": {
+        "proofs": ["ZlProofs.Props.C10"],
+        "corr": [],
+        "search": ["conc"],
+        "race_subs": ["conc"],
+        "trusted_base": TB_COMMON + ["Go's race detector (search only)"],
+        "assumptions": ["SetConfiguration and Register* are not among the concurrent operations (as the property states)",
+                        "each goroutine lints objects it owns"],
+        "partial": "data races are a property of the Go memory model and of third-party code; the Lean model shows only that zlint's own steps perform no shared writes per the extracted footprints; the real scheduler is observed under -race, not proved",
+    },
     "C06": {"technique": "Lean 4 kernel evaluation over SSA-extracted status sets of every Execute + lifting lemma",
             "text": "For every registration found in the lint tree the set of statuses its Execute can return (all return paths, through helpers and pointer parameters) is regenerated and checked against the prefix rule by decide +kernel; framework_adds_only/severity_lifted lift it to every run. Nine committed known findings are excused by name+status only.",
             "note": "Trusted: the status-set data-flow of extract/status.go (unknown never passes; observed statuses must lie inside the extracted sets)."},
@@ -201,5 +261,17 @@ CLAIMS = {
             "text": "contains_reserved_intersects, intersects_mono, host_network, mapped_eq_host/net, special_blocks_reserved hold for all addresses and canonical CIDR networks, given table facts (table_covers_nonGU, special_blocks_covered) decided by the kernel over the regenerated table. Tie: IsIANAReserved/IntersectsIANAReserved/IsGlobalUnicast/Contains on block edges, all super- and sub-prefixes, 4-byte and mapped forms.",
             "note": "A-NET (net.IP/IPNet as modelled); canonical networks with contiguous masks."},
 }
+
+CLAIMS.update({
+    "C05": {"technique": "Lean 4 proof (history/repetition/object invariance for read-only effectful calls) + kernel evaluation of regenerated SSA footprints against hand-written allow-lists + snapshot/history search",
+            "text": "history_independent, repetition_constant, object_unchanged hold for arbitrary effectful calls that are read-only; that every lint and helper in the tree is read-only and I/O-free is decided by the kernel over footprints regenerated from the source on every run: no stores through the linted object (incl. append aliasing and re-slices), no package-level stores outside the registration API, every call leaving the module is to a pure package or passes a function-level rule, clock/file sites are exactly the documented ones, map-range sites are order-free or reviewed. Search: deep snapshots before/after, repetitions, intervening histories and targeted cache-key histories on corpus + mutants.",
+            "note": "Partial (see DESIGN): soundness of the SSA footprint w.r.t. reflection / unsafe / library internals is trusted + cross-checked, not proved. A-LIB, A-MEMO."},
+    "C09": {"technique": "Lean 4 congruence proof + kernel evaluation of regenerated read footprints + signature-replacement search",
+            "text": "runAll_congr / sig_independent: lints whose outcome depends only on fields outside the signature-derived ones give equal result sets on objects agreeing elsewhere. Regenerated facts decided by the kernel: Signature is read by exactly one lint and only through len; Raw by exactly the two reviewed lints; no fingerprint / validation-state reads; no signature-checking calls. Search: every non-self-issued certificate with the signature replaced by zero / one / random / lopsided-ECDSA / other-key bytes of the same length.",
+            "note": "Partial: A-SELF, A-ASN1, A-PARSE are validated by the search, not proved."},
+    "C10": {"technique": "Lean 4 proof (every interleaving of world-preserving steps equals the sequential runs) + kernel evaluation of regenerated write/lock footprints + race-detector stress",
+            "text": "interleaving_eq_sequential holds for every schedule of threads whose calls leave the shared world unchanged; that the code's lint and registry-read operations are such calls is decided by the kernel over regenerated footprints (registry_readers_readonly, lock_discipline, steps_preserve_shared). Search: a -race build running 16 linting goroutines plus 6 registry readers at GOMAXPROCS 16/2/1 with the first registry use inside the concurrent phase, results compared with the same calls made alone.",
+            "note": "Partial: no race-freedom claim at proof level; third-party code and the Go memory model are outside the model."},
+})
 
 NOT_APPLICABLE = {}
